@@ -59,21 +59,25 @@ def env_for(t: str) -> Any:
 # ---------------------------------------------------------------------------------------------
 # dedicated probes
 # ---------------------------------------------------------------------------------------------
-# (text, static path or None, static prefix)
-TARGETS: list[tuple[str, Optional[tuple], tuple]] = [
-    ("x", ("x",), ("x",)),
-    ("x.a", ("x", "a"), ("x", "a")),
-    ("x.a.b", ("x", "a", "b"), ("x", "a", "b")),
-    ("x[0]", ("x", 0), ("x", 0)),
-    ("x['a']", ("x", "a"), ("x", "a")),
-    ("x.a[0]", ("x", "a", 0), ("x", "a", 0)),
-    ("x[0].a", ("x", 0, "a"), ("x", 0, "a")),
-    ("x[-1]", ("x", -1), ("x",)),
-    ("x[k]", None, ("x",)),
-    ("x.size", ("x", "size"), ("x",)),
-    ("x.first", ("x", "first"), ("x",)),
-    ("nosuch", ("nosuch",), ("nosuch",)),
-    ("nosuch.a[0]", ("nosuch", "a", 0), ("nosuch", "a", 0)),
+# (text, static path or None, static paths the expression mentions)
+TARGETS: list[tuple[str, Optional[tuple], list[tuple]]] = [
+    ("x", ("x",), [("x",)]),
+    ("x.a", ("x", "a"), [("x", "a")]),
+    ("x.a.b", ("x", "a", "b"), [("x", "a", "b")]),
+    ("x[0]", ("x", 0), [("x", 0)]),
+    ("x['a']", ("x", "a"), [("x", "a")]),
+    ("x.a[0]", ("x", "a", 0), [("x", "a", 0)]),
+    ("x[0].a", ("x", 0, "a"), [("x", 0, "a")]),
+    ("x[-1]", ("x", -1), [("x",)]),
+    ("x[k]", None, [("x",), ("k",)]),
+    ("x[k].a", None, [("x",), ("k",)]),
+    ("x.a[k]", None, [("x", "a"), ("k",)]),
+    ("y[x.a]", None, [("y",), ("x", "a")]),
+    ("y[x.a].a", None, [("y",), ("x", "a")]),
+    ("x.size", ("x", "size"), [("x",)]),
+    ("x.first", ("x", "first"), [("x",)]),
+    ("nosuch", ("nosuch",), [("nosuch",)]),
+    ("nosuch.a[0]", ("nosuch", "a", 0), [("nosuch", "a", 0)]),
 ]
 
 PROBE_DATA: list[tuple[str, dict[str, Any]]] = [
@@ -89,6 +93,8 @@ PROBE_DATA: list[tuple[str, dict[str, Any]]] = [
     ("P9", {"x": []}),
     ("P10", {"x": {}}),
     ("P11", {"x": ""}),
+    ("P12", {"x": {"a": "B"}, "y": {"B": {"a": 1}}, "k": "a", "n": 0}),
+    ("P13", {"x": ["p", "q"], "k": None, "n": -1}),
 ]
 
 CMP_LITS = ["nil", "1", "'a'", "false", "empty", "blank", "nosuch2", "y"]
@@ -112,6 +118,23 @@ def build_ops(filter_names: list[str]) -> list[tuple[str, Optional[str]]]:
         ("{% for i in {T} %}{% break %}{% endfor %}", "iterate"),
         ("{% tablerow i in {T} %}{{ i }}{% endtablerow %}", "iterate"),
         ("{% tablerow i in {T} cols: 2 limit: 1 %}{{ i }}{% endtablerow %}", "iterate"),
+        ("{% for i in {T} limit: 0 %}[{{ i }}]{% else %}E{% endfor %}", "iterate"),
+        ("{% for i in {T} limit: -1 %}[{{ i }}]{% else %}E{% endfor %}", "iterate"),
+        ("{% for i in {T} limit: n %}[{{ i }}]{% else %}E{% endfor %}", "iterate"),
+        ("{% for i in {T} limit: n reversed %}[{{ i }}]{% else %}E{% endfor %}", "iterate"),
+        ("{% for i in {T} limit: 0 reversed %}[{{ i }}]{% endfor %}", "iterate"),
+        ("{% for i in {T} offset: 1 %}[{{ i }}]{% else %}E{% endfor %}", "iterate"),
+        ("{% for i in {T} offset: n %}[{{ i }}]{% else %}E{% endfor %}", "iterate"),
+        ("{% for i in {T} limit: 0 offset: 1 %}[{{ i }}]{% else %}E{% endfor %}", "iterate"),
+        ("{% for i in {T} limit: n offset: n %}[{{ i }}]{% else %}E{% endfor %}", "iterate"),
+        ("{% for i in {T} offset: continue %}[{{ i }}]{% else %}E{% endfor %}", "iterate"),
+        ("{% tablerow i in {T} limit: 0 %}{{ i }}{% endtablerow %}", "iterate"),
+        ("{% tablerow i in {T} limit: -1 %}{{ i }}{% endtablerow %}", "iterate"),
+        ("{% tablerow i in {T} cols: 2 limit: n %}{{ i }}{% endtablerow %}", "iterate"),
+        ("{% tablerow i in {T} cols: n %}{{ i }}{% endtablerow %}", "iterate"),
+        ("{% tablerow i in {T} offset: 1 %}{{ i }}{% endtablerow %}", "iterate"),
+        ("{% tablerow i in {T} cols: 2 offset: n limit: 0 %}{{ i }}{% endtablerow %}", "iterate"),
+        ("{% liquid for i in {T} limit: 0\necho i\nelse\necho 'E'\nendfor %}", "iterate"),
         ("{% if {T} %}T{% else %}F{% endif %}", "truthy"),
         ("{% if {T} %}T{% endif %}", "truthy"),
         ("{% unless {T} %}U{% else %}E{% endunless %}", "truthy"),
@@ -257,9 +280,10 @@ class C16(Check):
         "G: every program of the shared corpus x every DATA_SETS assignment x every valid subset of <=2 deleted "
         "keys/sub-paths (all dict keys at any depth, list suffixes) x {Undefined, StrictUndefined, FalsyStrictUndefined, "
         "StrictDefaultUndefined}; P: every (operation, target path) probe (output/iterate/equality/compare/truthiness/"
-        "every registered filter x 5 argument shapes/filter argument x 3 shapes/tag argument) x 12 probe data assignments (incl. arrays holding nil and false) x every "
+        "every registered filter x 5 argument shapes/filter argument x 3 shapes/tag argument) x 14 probe data assignments (incl. arrays holding nil and false) x every "
         "deletion subset of <=2 paths x the 4 types. Clauses: 1 (statement) a strict type that renders ok gives the default "
-        "type's output; 2a (statement) the default type never raises UndefinedError; 2b (statement) when the full data "
+        "type's output; 2a (statement) the default type never raises UndefinedError; 2c (statement) when the full data renders ok "
+        "the default type with deletions never lets a non-Liquid exception escape (no nil baseline); 2b (statement) when the full data "
         "renders ok, the default type with deletions raises only what 'present but nil' raises too (only where the "
         "deleted paths are top-level keys or lie on the probe's target path, and -- when both raise -- both errors point "
         "at the same expression; else excluded); 3 (statement + "
@@ -346,14 +370,14 @@ class C16(Check):
                 variants.append((lab, full, subset, M.apply(full, subset, "delete")))
         for oi in range(i, len(ops), n):
             op, kind = ops[oi]
-            for text, path, prefix in TARGETS:
+            for text, path, mentions in TARGETS:
                 src = op.replace("{T}", text)
                 tpls = parse4(src)
                 if tpls is None:
                     res.count("probe_rejected_by_parser")
                     continue
                 probe = {"op": op, "kind": kind, "target": list(path) if path is not None else None,
-                         "prefix": list(prefix), "valid": self.probe_valid(tpls["U"], path)}
+                         "mentions": [list(m) for m in mentions], "valid": self.probe_valid(tpls["U"], path)}
                 if kind is not None and path is not None and not probe["valid"]:
                     res.count("probe_never_valid_clause3_excluded")
                 full_cache: dict[str, U.Outcome] = {}
@@ -420,6 +444,14 @@ class C16(Check):
             elif subset:
                 if not ofull.ok:
                     res.count("clause2b_baseline_raises_excluded")
+                elif ou.is_other_error:
+                    # a non-Liquid exception is never excused by the nil baseline
+                    if self.nil_comparison_justified(subset, probe):
+                        viol({"clause": "2c-default-raises-non-liquid", "exc": ou.error_class, "site": site(ou)},
+                             f"default Undefined raised non-Liquid {short(ou)}; full data renders ok")
+                    else:
+                        res.count("unspecified_excluded")
+                        res.count("clause2c_deletion_not_attributable")
                 else:
                     onil = quiet_render(tpls["U"], M.apply(full, subset, "nil"))
                     if onil.error_class == ou.error_class:
@@ -485,17 +517,22 @@ class C16(Check):
 
     @staticmethod
     def nil_comparison_justified(subset: tuple, probe: Optional[dict[str, Any]]) -> bool:
-        """Is 'same data with the deleted paths present but nil' a fair stand-in for the deletion?
+        """Can an error under the default type be attributed to the deletion (rather than to a container that
+        merely lost a member)?
 
-        Yes when every deleted path is a top-level key (nothing enumerates the global scope), or -- for a probe
-        with a static target -- lies on the target path (its parent is only traversed by key/index).  A deleted
-        sub-path elsewhere shrinks a container the template may use as a whole: excluded.
+        Yes when every deleted path is a top-level key (nothing enumerates the global scope), or -- for a probe --
+        lies on a path the probe's target expression mentions (its parent is then only traversed by key/index).
+        A deleted sub-path elsewhere shrinks a container the template may use as a whole: excluded.
         """
-        target = tuple(probe["target"]) if probe and probe.get("target") is not None else None
+        mentions: list[tuple] = []
+        if probe:
+            mentions = [tuple(m) for m in probe.get("mentions") or []]
+            if probe.get("target") is not None:
+                mentions.append(tuple(probe["target"]))
         for d in subset:
             if len(d) == 1:
                 continue
-            if target is not None and M.is_prefix(d, target):
+            if any(M.is_prefix(d, m) for m in mentions):
                 continue
             return False
         return True
